@@ -2,6 +2,7 @@ package main
 
 import (
 	"context"
+	"encoding/hex"
 	"fmt"
 	"math/rand"
 	"net"
@@ -30,7 +31,9 @@ import (
 //	listen <name> <sk> <allowUsers>             => ok | repeated
 //	close <name>                                => -
 //	precheck <name> <user>                      => ok | noexist | notallowed
-//	visit <id> <name> <skUsed> <tsUsed> <tsMsg> <user> <proto> <mapped> <assisted>
+//	visit <id> <name> <skUsed> <tsUsed> <tsMsg> <user> <proto> <mapped> <assisted> [<sigmut>]
+//	                                               SignKey = natMutSig(GetAuthKey(skUsed, tsUsed), sigmut): the right signature for
+//	                                               (skUsed, tsUsed) or a prefix / suffix / extension / near miss / junk (see natMutSig)
 //	                                            => created | err:noexist | err:auth     (HandleVisitor up to the notify send)
 //	notify <name>                               => n<id> | none                          (one receive on the proxy's sidCh)
 //	cli <id> <k> <mapped> <assisted>            => ok | late | unknown                   (HandleClient via client transporter k of session id)
@@ -435,9 +438,13 @@ func natExec(tok []string) string {
 		s.ch = st.chans[s.name]
 		tsUsed, _ := strconv.ParseInt(tok[4], 10, 64)
 		tsMsg, _ := strconv.ParseInt(tok[5], 10, 64)
+		mut := "x"
+		if len(tok) > 10 {
+			mut = tok[10]
+		}
 		m := &msg.NatHoleVisitor{
 			TransactionID: "tv" + strconv.Itoa(id), ProxyName: unhx(tok[2]),
-			SignKey: util.GetAuthKey(unhx(tok[3]), tsUsed), Timestamp: tsMsg,
+			SignKey: natMutSig(util.GetAuthKey(unhx(tok[3]), tsUsed), mut), Timestamp: tsMsg,
 			Protocol: unhx(tok[7]), MappedAddrs: unlist(tok[8]), AssistedAddrs: unlist(tok[9]),
 		}
 		before := map[string]bool{}
@@ -663,6 +670,91 @@ var natMalformed = []string{"nocolon", "1.2.3.4:", "1.2.3.4:abc", "[::1]", "[::1
 // entry 2 — with entry badPos (if 0 <= badPos < n) replaced by `bad` (natBadEntry): a malformed / unparsable address
 // or one with a port outside 1..65535.  Every entry is validated by ClassifyNATFeature, also those after the point where the
 // type is already decided.
+// natMutSig: the SignKey a visitor SUPPLIES, derived from the right one for (sk, timestamp) — the signature as a
+// class of strings, not only "right or computed from other inputs":
+//
+//	x        as it is                      p<k>  its first k characters (k = 0: empty)    t<k>  without its first k
+//	s<hex>   followed by these bytes       d<k>  without character k                      u     in upper case
+//	f<k>     character k replaced by another hex digit                                   l<hex> this literal instead
+//	g<k>     its first k characters, the rest replaced by 'z' (same length)
+func natMutSig(sig, mut string) string {
+	if mut == "" {
+		return sig
+	}
+	arg := mut[1:]
+	k, _ := strconv.Atoi(arg)
+	if k < 0 {
+		k = 0
+	}
+	if k > len(sig) {
+		k = len(sig)
+	}
+	unh := func(h string) string {
+		b, err := hex.DecodeString(h)
+		if err != nil {
+			return ""
+		}
+		return string(b)
+	}
+	switch mut[0] {
+	case 'p':
+		return sig[:k]
+	case 't':
+		return sig[k:]
+	case 's':
+		return sig + unh(arg)
+	case 'l':
+		return unh(arg)
+	case 'u':
+		return strings.ToUpper(sig)
+	case 'd':
+		if k < len(sig) {
+			return sig[:k] + sig[k+1:]
+		}
+		return sig
+	case 'f':
+		if k < len(sig) {
+			c := byte('0')
+			if sig[k] == '0' {
+				c = '1'
+			}
+			return sig[:k] + string(c) + sig[k+1:]
+		}
+		return sig
+	case 'g':
+		return sig[:k] + strings.Repeat("z", len(sig)-k)
+	}
+	return sig
+}
+
+// natSigMut draws a signature mutation: every class, every length / position
+func natSigMut(rng *rand.Rand) string {
+	switch rng.Intn(12) {
+	case 0: // a proper prefix, short ones and "all but the last few" more often than the middle
+		return "p" + strconv.Itoa(pick(rng, []int{0, 1, 1, 2, 3, 8, 16, 24, 29, 30, 31, 31, rng.Intn(32), rng.Intn(32)}))
+	case 1:
+		return "p" + strconv.Itoa(rng.Intn(32))
+	case 2: // the right signature followed by something
+		return "s" + pick(rng, []string{"00", "30", "20", "0a", "7a", "3030", "00000000", hex.EncodeToString([]byte("0123456789abcdef0123456789abcdef"))})
+	case 3:
+		return "s" + hex.EncodeToString([]byte{byte(rng.Intn(256))})
+	case 4: // a proper suffix
+		return "t" + strconv.Itoa(1+rng.Intn(31))
+	case 5:
+		return "d" + strconv.Itoa(rng.Intn(32))
+	case 6, 7: // same length, one character wrong — at every position
+		return "f" + strconv.Itoa(pick(rng, []int{0, 31, rng.Intn(32), rng.Intn(32)}))
+	case 8: // same length, right up to position k
+		return "g" + strconv.Itoa(rng.Intn(32))
+	case 9:
+		return "u"
+	case 10: // something else altogether: no signature, junk of the right / another length, not hex
+		return "l" + hex.EncodeToString([]byte(pick(rng, []string{"", " ", "0", "z", "00000000000000000000000000000000",
+			"d41d8cd98f00b204e9800998ecf8427e", "zzzzzzzzzzzzzzzzzzzzzzzzzzzzzzzz", "\x00", "*"})))
+	}
+	return "x"
+}
+
 func natLongAddrs(rng *rand.Rand, n, prefix int, ip string, badPos int, bad string) []string {
 	p := pick(rng, []int{7, 80, 1000, 4000, 40000, 65520})
 	ip2 := ip
@@ -1076,8 +1168,18 @@ func natGen(rng *rand.Rand, n int, emit func(string)) {
 				}
 				vm := natAddrs(rng, pr.vk, pr.vip)
 				oor[id] = natAnyOutOfRange(vm)
-				sc := []string{fmt.Sprintf("visit %d %s %s %d %d %s %s %s %s", id, hx(nm), hx(sk), tsUsed, ts, hx(pick(rng, users)),
-					hx(pick(rng, []string{"quic", "kcp", ""})), mklist(vm), mklist(natAssisted(rng, vm)))}
+				// the SignKey supplied: the right one for (sk, tsUsed) or — a third of the visits — a string derived
+				// from it (prefix, suffix, extension, one character off, other case, junk); then secret and timestamp
+				// are mostly the proxy's, so that the derived string is the only reason to refuse
+				mut := "x"
+				if rng.Intn(3) == 0 {
+					mut = natSigMut(rng)
+					if rng.Intn(5) > 0 {
+						sk, tsUsed = "sk", ts
+					}
+				}
+				sc := []string{fmt.Sprintf("visit %d %s %s %d %d %s %s %s %s %s", id, hx(nm), hx(sk), tsUsed, ts, hx(pick(rng, users)),
+					hx(pick(rng, []string{"quic", "kcp", ""})), mklist(vm), mklist(natAssisted(rng, vm)), mut)}
 				// owner-side events after the visit
 				ev := []string{}
 				switch rng.Intn(10) {
